@@ -499,6 +499,42 @@ def p1(h, st):
     h.done()
 
 
+@contract("C03", "O12.input_kinds", level="B", native_samples=lambda st, rnd, tier: [{"seed": rnd.randint(0, 999)}],
+          structures=lambda tier: [{"mapping": m, "utd": u} for m in ("JW", "BK", "JKMN", "scBK", "jw", "Scbk") for u in (False, True)],
+          targets=[(MT, "fermion_to_qubit_mapping")])
+def o12(h, st):
+    """the operator may be handed over as a Tangelo FermionOperator, an openfermion FermionOperator or an openfermion InteractionOperator (cast by the front end): the
+    encoded operator is the same in all three cases, for every mapping name in any letter case and both orderings; the operator handed over is unchanged"""
+    import numpy as np
+    import openfermion as of
+    from openfermion.ops.representations import InteractionOperator
+    rs = np.random.default_rng(int(h.integer("seed")))
+    n = 4
+    h1 = rs.normal(size=(n, n))
+    h1 = h1 + h1.T
+    h2 = rs.normal(size=(n, n, n, n))
+    h2 = h2 + h2.transpose(3, 2, 1, 0)
+    # keep the operator within the parity sector structure scBK accepts: number- and spin-parity conserving terms only (spin = index parity)
+    for p_ in range(n):
+        for q_ in range(n):
+            if (p_ - q_) % 2:
+                h1[p_, q_] = 0
+            for r_ in range(n):
+                for s_ in range(n):
+                    if (p_ + q_ + r_ + s_) % 2 or ((p_ % 2) + (q_ % 2) != (r_ % 2) + (s_ % 2)):
+                        h2[p_, q_, r_, s_] = 0
+    iop = InteractionOperator(0.3, h1, h2)
+    fo = of.transforms.get_fermion_operator(iop)
+    ft = fop((), 0.0)
+    ft.terms = dict(fo.terms)
+    before = (iop.constant, iop.one_body_tensor.copy(), iop.two_body_tensor.copy())
+    qs = [qmap(h, x, st["mapping"], n, 2, st["utd"], 0) for x in (ft, fo, iop)]
+    h.check("openfermion FermionOperator gives the same encoded operator as the Tangelo one", qeq(qs[0], qs[1], 1e-10))
+    h.check("InteractionOperator gives the same encoded operator", qeq(qs[0], qs[2], 1e-10))
+    h.check("InteractionOperator unchanged", iop.constant == before[0] and np.array_equal(iop.one_body_tensor, before[1]) and np.array_equal(iop.two_body_tensor, before[2]))
+    h.done()
+
+
 PROPERTY = {
     "level": "other",
     "explanation": "Full-space encodings (JW, BK, JKMN; both orderings; registers larger than the operator's support): adjoints, the canonical anticommutation "
